@@ -15,6 +15,7 @@ import Mahotas.Proofs.C19HaralickFeat
 import Mahotas.Proofs.C19CoocData
 import Mahotas.Proofs.C19Entropy
 import Mahotas.Proofs.C19IntegralRing
+import Mahotas.Proofs.C19Machine
 import Mathlib.Data.ZMod.Basic
 namespace Mahotas.C19
 open Mahotas Mahotas.Generated
@@ -437,6 +438,91 @@ every embedding `cast` of the indices and every centre — e.g. `ℚ` or `ℝ` w
 theorem C19_moments_def_any_ring {R : Type} [CommRing R] (cast : Nat → R) (rows : List (List R)) (p0 p1 : Nat)
     (c0 c1 : R) : moments cast rows p0 p1 c0 c1 = momentsSpec cast rows p0 p1 c0 c1 :=
   Gen.moments_eq_spec cast rows p0 p1 c0 c1
+
+/-! ## Round 4 (integer dtypes of `integral`, `moments` options, radial polynomial) -/
+
+/-- **C19-T4 (integral image in the dtype's own arithmetic).** `integralMachine bits signed` is the C++ template
+`integral<T>` for an integer `T` of `bits ≥ 1` bits run on machine integers (`MInt`: **every** `+` and `-` of the in-place
+recurrence is reduced into the dtype's range — unsigned modulo `2^bits`, signed two's complement). For every rectangular
+image of integers (each first converted to the dtype, as `astype` does): the shape is kept, every entry is the **exact**
+two-dimensional prefix sum `Σ_{a≤i} Σ_{b≤j} f[a][b]` (taken in `ℤ`) reduced once into the range — intermediate overflows
+leave no trace — and the entries lie in `[0, 2^bits)` resp. `[-2^(bits-1), 2^(bits-1))`. This is what the driver prints as
+`machine=` and the check compares the real `surf.integral(f, dtype=<integer dtype>)` with. -/
+theorem C19_integral_machine_arithmetic (bits : Nat) (signed : Bool) (hb : 0 < bits) (w : Nat)
+    (rows : List (List Int)) (hw : ∀ r ∈ rows, r.length = w) :
+    integralMachine bits signed w rows = (integral w rows).map (fun r => r.map (wrapTo bits signed)) ∧
+    (integralMachine bits signed w rows).length = rows.length ∧
+    (∀ i j, i < rows.length → j < w →
+      ((integralMachine bits signed w rows).getD i []).getD j 0 = wrapTo bits signed (prefix2 rows i j)) ∧
+    (∀ x : Int, 0 ≤ wrapTo bits false x ∧ wrapTo bits false x < 2 ^ bits) ∧
+    (∀ x : Int, -(2 ^ (bits - 1)) ≤ wrapTo bits true x ∧ wrapTo bits true x < 2 ^ (bits - 1)) ∧
+    (∀ x y : Int, x % 2 ^ bits = y % 2 ^ bits → wrapTo bits signed x = wrapTo bits signed y) ∧
+    (∀ x : Int, wrapTo bits signed x % 2 ^ bits = x % 2 ^ bits) := by
+  refine ⟨Machine.integralMachine_eq bits signed hb w rows, ?_,
+    fun i j hi hj => Machine.integralMachine_getD bits signed hb w rows hw i j hi hj,
+    Machine.wrapTo_range_unsigned bits, Machine.wrapTo_range_signed bits hb,
+    fun x y h => Machine.wrapTo_congr bits signed h, Machine.wrapTo_emod bits signed⟩
+  rw [Machine.integralMachine_eq bits signed hb, List.length_map]
+  exact Gen.integral_length w rows
+
+/-- `uint8`: 200 + 100 + 100 + 200 = 600 ↦ 88, through the intermediate 300 ↦ 44; `int8`: 100 + 100 ↦ −56 -/
+example : integralMachine 8 false 2 [[200, 100], [100, 200]] = [[200, 44], [44, 88]] ∧
+    integralMachine 8 true 2 [[100, 100], [-128, -1]] = [[100, -56], [-28, 71]] ∧
+    wrapTo 8 false 600 = 88 := by decide
+
+/-- **C19-T5 (moments: `normalize=True`, `cm=None`).** `momentsFull` transliterates `moments.py` with its options: the two
+weight vectors `p = (arange(n) − c)**pw` (nothing subtracted for `cm=None`), each divided by its sum when `normalize`, then
+`np.dot(np.dot(img, p_cols), p_rows)`. Over every field, every `R×C` image and every centre: (i) without `normalize` it is
+the round-1 model `moments`, hence the defining double sum `momentsSpec`; (ii) `cm=None` is `cm=(0,0)`; (iii) with
+`normalize` the result is the plain moment divided by `(Σ_j (j−c1)^p1)·(Σ_i (i−c0)^p0)` — "normalised to the size of the
+image": for `p0 = p1 = 0` the divisor is `C·R` — with the convention `x/0 = 0` of fields where numpy gives `inf`/`nan`. -/
+theorem C19_moments_options {α : Type} [Field α] (cast : Nat → α) (R C : Nat) (rows : List (List α)) (p0 p1 : Nat)
+    (c0 c1 : α) (hR : rows.length = R) (hC : ∀ r ∈ rows, r.length = C) :
+    momentsFull cast R C rows p0 p1 (some (c0, c1)) false = momentsSpec cast rows p0 p1 c0 c1 ∧
+    (∀ nz, momentsFull cast R C rows p0 p1 none nz = momentsFull cast R C rows p0 p1 (some (0, 0)) nz) ∧
+    momentsFull cast R C rows p0 p1 (some (c0, c1)) true =
+      momentsSpec cast rows p0 p1 c0 c1 /
+        (gsum 0 (Machine.rawWeights cast C p1 c1) * gsum 0 (Machine.rawWeights cast R p0 c0)) := by
+  have h1 := Machine.momentsFull_eq_moments cast R C rows p0 p1 c0 c1 hR hC
+  rw [Gen.moments_eq_spec] at h1
+  refine ⟨h1, fun nz => Machine.momentsFull_none cast R C rows p0 p1 nz, ?_⟩
+  rw [Machine.momentsFull_normalize, h1]
+
+/-- `[[1,2],[3,4]]`, powers (1,1), centre (0,0): plain 4; normalised 4/((0+1)(0+1)) = 4; powers (0,0): mean 10/4;
+    powers (2,0) about (1/2, 0): 5/2 divided by (1/4+1/4)·2 = 1 -/
+example : momentsFull (fun n => (n : Rat)) 2 2 [[1, 2], [3, 4]] 1 1 none true = 4 ∧
+    momentsFull (fun n => (n : Rat)) 2 2 [[1, 2], [3, 4]] 0 0 none true = 5 / 2 ∧
+    momentsFull (fun n => (n : Rat)) 2 2 [[1, 2], [3, 4]] 2 0 (some (1 / 2, 0)) true = 5 / 2 ∧
+    momentsFull (fun n => (n : Rat)) 2 2 [[1, 2], [3, 4]] 2 0 (some (1 / 2, 0)) false = 5 / 2 := by decide +kernel
+
+/-- **C19-T6 (Zernike radial polynomial = textbook formula).** Over every field: `fact(n)` of `_zernike.cpp` (the extracted
+table below 13, the recursion `n·fact(n−1)` beyond) is `n!` for **every** `n`; the coefficient `g_m[m]` that `znl` tabulates
+is the textbook coefficient `(−1)^m (n−m)! / (m! ((n+l)/2 − m)! ((n−l)/2 − m)!)` of `ρ^(n−2m)` for every `m ≤ (n−l)/2`; the
+inner loop of `znl` at one pixel is `R_n^l(d)·a` with `zRadial n l d = Σ_{m ≤ (n−l)/2} g_m · pow(d, n−2m)` (any `pow`);
+in characteristic 0, `R_n^n(d) = pow(d, n)`. -/
+theorem C19_zernike_radial_textbook {α : Type} [Field α] :
+    (∀ n : Nat, zfact (Nat.cast : Nat → α) n = ((n.factorial : Nat) : α)) ∧
+    (∀ n l m : Nat, 2 * m + l ≤ n →
+      zcoef (1 : α) Nat.cast n l m =
+        (-1) ^ m * ((n - m).factorial : α) /
+          ((m.factorial : α) * (((n + l) / 2 - m).factorial : α) * (((n - l) / 2 - m).factorial : α))) ∧
+    (∀ (pow : α → Nat → α) (n l : Nat) (d : α) (a : α × α),
+      zVnl 0 1 Nat.cast pow n l d a = cxScale (zRadial 0 1 Nat.cast pow n l d) a) ∧
+    (∀ (pow : α → Nat → α) (n l : Nat) (d : α),
+      zRadial 0 1 Nat.cast pow n l d =
+        ((List.range ((n - l) / 2 + 1)).map fun m => zcoef 1 Nat.cast n l m * pow d (n - 2 * m)).sum) ∧
+    (CharZero α → ∀ (pow : α → Nat → α) (n : Nat) (d : α), zRadial 0 1 Nat.cast pow n n d = pow d n) :=
+  ⟨Machine.zfact_eq_factorial, Machine.zcoef_textbook, Machine.zVnl_eq_zRadial, Machine.zRadial_eq_sum,
+   fun _ pow n d => Machine.zRadial_diag pow n d⟩
+
+/-- **C19-T6 (radial polynomials at the rim).** For every degree the factorial table covers (`n ≤ 12`, every admissible `l`):
+`R_n^l(1) = 1` over ℚ — the normalisation of the Zernike basis (`decide +kernel` on the model's `zRadial`). -/
+theorem C19_zernike_radial_at_one : ∀ n ∈ List.range 13, ∀ l ∈ List.range (n + 1), (n - l) % 2 = 0 →
+    zRadial (0 : Rat) 1 Nat.cast (fun d k => d ^ k) n l 1 = 1 := by decide +kernel
+
+/-- `R_4^2(ρ) = 4ρ⁴ − 3ρ²` at `ρ = 1/2`; `13! = 6227020800` comes from the recursion, not from the table -/
+example : zRadial (0 : Rat) 1 Nat.cast (fun d k => d ^ k) 4 2 (1 / 2) = 4 * (1 / 2) ^ 4 - 3 * (1 / 2) ^ 2 ∧
+    zfact (Nat.cast : Nat → Rat) 13 = 6227020800 ∧ zcoef (1 : Rat) Nat.cast 4 2 1 = -3 := by decide +kernel
 
 /-! non-vacuity -/
 example : coocCount [2, 3] (fun p => ([0, 1, 1, 1, 0, 1].getD (ravelI [2, 3] p) 0)) [0, 1] 1 1 = 1 ∧
